@@ -615,6 +615,14 @@ pub fn damage(ren: &Rendering, fragment: bool) -> Vec<(String, usize, String)> {
         out.push(("attribute-twice-by-expanded-name-empty-uri-prefix".into(), e.attrs_at, ins(e.attrs_at, " xmlns:d0='' d0:k='1' k='2'")));
         out.push(("attribute-twice-by-expanded-name-empty-uri-prefix".into(), e.attrs_at, ins(e.attrs_at, " k='1' xmlns:d0='' d0:k='2'")));
         out.push(("attribute-twice-by-expanded-name-default-is-no-help".into(), e.attrs_at, ins(e.attrs_at, " xmlns:d1='urn:dup' d1:k='1' xmlns:d2='urn:dup' d2:k='2' k='3' xmlns='urn:dup'")));
+        // ... and where the one expanded name is in the XML namespace, reached through `xml` and through a second prefix bound
+        // to that namespace name (the parser accepts such a binding): xml:id, xml:space and another name, in either order
+        for (l, v1, v2) in [("id", "xi1", "xi2"), ("space", "preserve", "default"), ("lang", "en", "nl")] {
+            out.push(("attribute-twice-by-expanded-name-xml-namespace".into(), e.attrs_at,
+                      ins(e.attrs_at, &format!(" xmlns:dx='http://www.w3.org/XML/1998/namespace' dx:{l}='{v1}' xml:{l}='{v2}'"))));
+            out.push(("attribute-twice-by-expanded-name-xml-namespace".into(), e.attrs_at,
+                      ins(e.attrs_at, &format!(" xml:{l}='{v1}' dx:{l}='{v2}' xmlns:dx='http://www.w3.org/XML/1998/namespace'"))));
+        }
         out.push(("prefix-declared-twice".into(), e.attrs_at, ins(e.attrs_at, " xmlns:dd='urn:u1' xmlns:dd='urn:u2'")));
         out.push(("default-namespace-declared-twice".into(), e.attrs_at, ins(e.attrs_at, " xmlns='urn:u1' xmlns='urn:u1'")));
         out.push(("raw-lt-in-attribute".into(), e.attrs_at, ins(e.attrs_at, " lt='a<b'")));
